@@ -128,6 +128,8 @@ impl Property for C13 {
         let compact_corrupt_read: Option<u64> = if src.chance(1, 6) { Some(1 + src.below(5)) } else { None };
         // the compaction's manifest swap takes effect but reports an error (copy-then-delete rename)
         let compact_rename_ambiguous = src.chance(1, 8);
+        // or it fails outright (the manifest stays as it was: so must everything it names)
+        let compact_rename_fails = !compact_rename_ambiguous && src.chance(1, 8);
         let trace = ctx.trace;
         if trace {
             for e in &stream { rep.trace.push(format!("t+{}ms {} -> {} @({},{})", e.wall_ms - t0, e.op, e.delta.value.crdt_type(), e.delta.value.timestamp.time, e.delta.value.timestamp.replica_id.0)); }
@@ -193,10 +195,11 @@ impl Property for C13 {
                 let st_c = st.as_actor(1);
                 if let Some(j) = compact_corrupt_read { st.set_who_plan([((1u32, j), crate::simkit::store::StoreFault::GetCorrupt)].into_iter().collect()); }
                 if compact_rename_ambiguous { st.inner.lock().unwrap().next_rename_fault.insert(1, crate::simkit::store::StoreFault::RenameAmbiguous); }
+                if compact_rename_fails { st.inner.lock().unwrap().next_rename_fault.insert(1, crate::simkit::store::StoreFault::RenameError); }
                 if let Some(k) = delete_fault { st.inner.lock().unwrap().next_delete_fault.insert(1, k); }
                 let mut compactor = Compactor::with_time_source(Arc::new(st_c.clone()), PREFIX.to_string(), ManifestManager::new(st_c.clone(), PREFIX), ccfg, clock.clone());
                 // every other fault-free layout is compacted the way the background worker does it: compact_if_needed()
-                let via_if_needed = compact_corrupt_read.is_none() && !compact_rename_ambiguous && delete_fault.is_none() && n_compactions % 2 == 0;
+                let via_if_needed = compact_corrupt_read.is_none() && !compact_rename_ambiguous && !compact_rename_fails && delete_fault.is_none() && n_compactions % 2 == 0;
                 for _ in 0..n_compactions {
                     if via_if_needed {
                         match compactor.compact_if_needed().await { Ok(Some(r)) => { compact_ok.push(true); removed.extend(r.segments_removed.iter().map(|s| s.id)); } Ok(None) => compact_ok.push(false), Err(_) => compact_ok.push(false) }
@@ -224,6 +227,7 @@ impl Property for C13 {
                     if let Some(j) = compact_corrupt_read { plan.insert((1u32, j), crate::simkit::store::StoreFault::GetCorrupt); }
                     if !plan.is_empty() { st.set_who_plan(plan); }
                     if compact_rename_ambiguous { st.inner.lock().unwrap().next_rename_fault.insert(1, crate::simkit::store::StoreFault::RenameAmbiguous); }
+                    if compact_rename_fails { st.inner.lock().unwrap().next_rename_fault.insert(1, crate::simkit::store::StoreFault::RenameError); }
                 }
                 st.set_yield(true);
                 let ops0 = st.ops();
@@ -265,7 +269,7 @@ impl Property for C13 {
             rep.trace.push(format!("compact results {:?}, flush result {:?}, segments removed {:?}", out.compact_ok, out.flush_ok, out.removed));
         }
         let _ = OpKind::Put;
-        for e in store.inner.lock().unwrap().events.iter() { if let Some(f) = e.fault { rep.fault(f.name()); rep.probe(if e.who == 2 { "flush_reload_failed_transiently" } else if matches!(f, crate::simkit::store::StoreFault::RenameAmbiguous) { "compaction_manifest_swap_ambiguous" } else if matches!(f, crate::simkit::store::StoreFault::DeleteError) { "compaction_input_delete_failed" } else { "compaction_read_corrupted" }); } }
+        for e in store.inner.lock().unwrap().events.iter() { if let Some(f) = e.fault { rep.fault(f.name()); rep.probe(if e.who == 2 { "flush_reload_failed_transiently" } else if matches!(f, crate::simkit::store::StoreFault::RenameAmbiguous) { "compaction_manifest_swap_ambiguous" } else if matches!(f, crate::simkit::store::StoreFault::DeleteError) { "compaction_input_delete_failed" } else if matches!(f, crate::simkit::store::StoreFault::RenameError) { "compaction_manifest_swap_failed" } else { "compaction_read_corrupted" }); } }
         if out.setup.is_some() { if lifecycle { rep.probe("lifecycle_setup_abandoned"); } rep.evals = 1; return rep; }
         if lifecycle { rep.probe("segments_written_and_later_flush_by_one_long_lived_writer"); }
         let before = match out.before { Ok(b) => b, Err(e) => { rep.violate("C13/recover-before-failed", e); return rep; } };
